@@ -211,7 +211,10 @@ The file header and the LOD table both store every LOD's vertex / index offsets 
 copy the reader does not use (`lio` = LOD-table index offset, `fvo` = file-header vertex offset,
 `fvs` / `fis` = file-header vertex / index buffer size, `lvs` / `lis` = LOD-table sizes): the file
 still parses to the same model, so parse → write → parse must report the same view, an unchanged
-file header and unchanged model data (the in-bounds flag of the unedited header is not compared). -/
+file header and unchanged model data (the in-bounds flag of the unedited header is not compared).
+The reading half is a theorem: `c06_parse_redundant_partial` (`Spec.Mdl.encodeMdlR`, every value of
+these copies and of the file header's LOD count / the LOD table's edge geometry offset);
+parse → write → parse on such files stays correspondence only. -/
 
 def setArr3 (a : Arr3 UInt32) (i : Nat) (f : UInt32 → UInt32) : Arr3 UInt32 :=
   match i with
